@@ -38,16 +38,19 @@ def leaves(e, xr, out):
         return
     if not isinstance(e, xr.BaseRef):
         return
-    for slot in ("_lhs", "_rhs", "_arg", "_func"):
-        if hasattr(e, slot):
-            leaves(getattr(e, slot), xr, out)
-    for slot in ("_params", "_args"):
-        if hasattr(e, slot):
-            for x in getattr(e, slot):
-                leaves(x, xr, out)
-    if hasattr(e, "_kwargs"):
-        for _, x in e._kwargs:
-            leaves(x, xr, out)
+    # by class, never by hasattr: every attribute name "exists" on a reference (BaseRef.__getattr__ builds an AttrRef)
+    if isinstance(e, xr.BinOpExpr):
+        subs = [e._lhs, e._rhs]
+    elif isinstance(e, (xr.UnaryOpExpr, xr.LiteralExpr)):
+        subs = [e._arg]
+    elif isinstance(e, xr.BuiltinRef):
+        subs = [e._arg] + list(e._params)
+    elif isinstance(e, xr.CallRef):
+        subs = [e._func] + list(e._args) + [x for _, x in e._kwargs]
+    else:
+        subs = []
+    for x in subs:
+        leaves(x, xr, out)
 
 
 class Recorder:
